@@ -52,6 +52,16 @@ CHECKS['C18'] = dict(
         'check sits in main() and is tied by the translator only; Coq kernel; extraction; gcc.',
    technique='Coq proof (arithmetic characterisation of byte swap/masks, induction over the assignment loop), differential correspondence exhaustive for /16../30 at thorough tier',
    design='4/C18')
+CHECKS['C19'] = dict(
+   text='Coq theorems for all passwords and all 2^32 challenges about a Gallina model of login_calculate (word-wise LE load, ntohl, xor, '
+        'htonl over the 32-byte zero-padded password, then an RFC 1321 MD5 written from the RFC): equals the documented byte-level '
+        'formula md5(pad32(p) xor 8 x be32(s)); reads nothing beyond 32 bytes; the 32-byte block is injective in the padded password and '
+        'in the challenge; raw login uses s+1 / s-1 with explicit wrap and the server/client accept exactly those. RFC test vectors by '
+        'computation. Tied to login.c, md5.c and the call sites in client.c/iodined.c by correspondence with hashlib as third oracle.',
+   note='Trusts: MD5 model tied to md5.c by correspondence and to the RFC by its 7 test vectors (no collision-resistance claim); signed '
+        'overflow of seed+1/seed-1 at INT_MAX/INT_MIN wraps (gcc); Coq kernel; translator; extraction; gcc.',
+   technique='Coq proof (byte/word arithmetic characterisation, injectivity of the xor block), differential correspondence + independent MD5',
+   design='4/C19')
 NOT_YET = {}
 
 def main():
